@@ -56,6 +56,7 @@ KEY_RACE = "early-exit:counterexample-during-stuck-confirmation-gives-ERROR"
 KEY_RAISE = "precedence:stuck-confirmation-exception-over-counterexample"
 KEY_TIMEOUT = "precedence:TIMEOUT-reported-over-stuck-or-revert-all-ERROR"
 KEY_EMPTY_CORE = "cache-solver:unsat-reply-with-empty-core-answers-later-queries-unsat"
+KEY_WRAPPED_CORE = "cache-solver:multi-line-unsat-core-truncated-answers-later-queries-unsat"
 
 FN = "check_t"
 KINDS = ["success", "revert", "panic", "panicOther", "fail", "stuck"]
@@ -97,22 +98,25 @@ def action(kind):
     }[kind]
 
 
-def body(K, refinable):
+def body(K, refinable, pad=0):
     """K = kinds in exploration order: K[0] is the fall-through, K[j] (j >= 1) the branch `x == n - j + 1`, n = len(K) - 1
     (halmos explores the fall-through first, then the last branch, …)."""
     x, y = asm.calldata_arg(0), asm.calldata_arg(1)
     n = len(K) - 1
     pre = asm.vm_assume(x + y + ["MUL", ("push", 12345), "EQ", "ISZERO"]) if refinable else []
+    for i in range(pad):   # `pad` extra path conditions shared by every path: y != 1000 + i
+        pre += asm.vm_assume(y + [("push", 1000 + i), "EQ", "ISZERO"])
     b = []
     for i in range(n):
         b += asm.if_then(asm.eq_const(x, i + 1), action(K[n - i]))
     return pre + b + action(K[0])
 
 
-def asserts_of(K, j, refinable):
-    """structural ids of the path conditions of path j: c0 = 1 (setup), a0 = 2 (the assume), n_k = 10 + k, e_k = 50 + k"""
+def asserts_of(K, j, refinable, pad=0):
+    """structural ids of the path conditions of path j: c0 = 1 (setup), a0 = 2 (the assume), pad conditions 100 + i,
+    n_k = 10 + k, e_k = 50 + k"""
     n = len(K) - 1
-    pre = [1] + ([2] if refinable else [])
+    pre = [1] + ([2] if refinable else []) + [100 + i for i in range(pad)]
     if j == 0:
         return pre + [10 + k for k in range(1, n + 1)]
     i = n - j
@@ -132,9 +136,11 @@ def stub_fields(rep, cache):
     if k == "sat_rc":
         return dict(reply="sat", returncode=rep.get("rc", 1), stderr="(error \"unsat core is not available\")\n")
     if k == "unsat":
-        return dict(reply="unsat", core=rep.get("core", "all"), error_line=bool(rep.get("error_line")))
+        return dict(reply="unsat", core=rep.get("core", "all"), error_line=bool(rep.get("error_line")),
+                    core_wrap=rep.get("wrap"), core_style=rep.get("style", "yices"))
     if k == "unsat_rc":
-        return dict(reply="unsat", core=rep.get("core", "all"), returncode=rep.get("rc", 1))
+        return dict(reply="unsat", core=rep.get("core", "all"), returncode=rep.get("rc", 1),
+                    core_wrap=rep.get("wrap"), core_style=rep.get("style", "yices"))
     if k == "unknown":
         return dict(reply="unknown")
     if k == "unknown_rc":
@@ -237,13 +243,13 @@ def cores_lie(case):
         r = rep[which]
         if r["kind"] not in ("unsat", "unsat_rc"):
             continue
-        a = asserts_of(K, j, ref)
+        a = asserts_of(K, j, ref, case.get("pad", 0))
         c = r.get("core", "all")
         core = a if c == "all" else ([] if c in ("none", "empty") else a[:c])
         if not core:
             continue
         for j2 in pots:
-            if j2 != j and set(core) <= set(asserts_of(K, j2, ref)) and ANSWER[final_kind(case["replies"][str(j2)], ref)] != "u":
+            if j2 != j and set(core) <= set(asserts_of(K, j2, ref, case.get("pad", 0))) and ANSWER[final_kind(case["replies"][str(j2)], ref)] != "u":
                 return True
     return False
 
@@ -269,7 +275,7 @@ def lean_paths(case, texts, kill_raises=True):
     K, ref, cache = case["K"], case["refinable"], case["cache"]
     out = []
     for j, k in enumerate(K):
-        a = asserts_of(K, j, ref)
+        a = asserts_of(K, j, ref, case.get("pad", 0))
         rep = case["replies"].get(str(j))
         if rep is None:
             out.append(f"{OBS[k]}:-:0:0:R:R")
@@ -292,7 +298,7 @@ def script_rules(s, case, fn=FN):
     if sched["type"] == "par":
         n_stuck_to = sum(1 for j, k in enumerate(K) if CLASS[k] == "stuck" and case["replies"][str(j)]["first"]["kind"] == "timeout")
         n_stuck = sum(1 for k in K if CLASS[k] == "stuck")
-        base = 150 + 110 * n_stuck + 750 * n_stuck_to
+        base = 150 + 110 * n_stuck + 1050 * n_stuck_to
         prev = None
         for p in sched["perm"]:
             rep = case["replies"][str(p)]
@@ -326,7 +332,7 @@ def script_rules(s, case, fn=FN):
 
 def timeout_of(case):
     any_to = any(r[w]["kind"] == "timeout" for r in case["replies"].values() for w in ("first", "second") if r.get(w))
-    return "600ms" if any_to else "8s"
+    return "900ms" if any_to else "8s"
 
 
 def threads_of(case):
@@ -337,7 +343,7 @@ def run_real(case):
     """-> dict(code, stdout, texts, log, order, workdir-independent facts)"""
     h = H()
     art, stub = h["art"], h["stub"]
-    c = art.TestContract("T", [art.Fn(f"{FN}(uint256 x, uint256 y)", body(case["K"], case["refinable"]))])
+    c = art.TestContract("T", [art.Fn(f"{FN}(uint256 x, uint256 y)", body(case["K"], case["refinable"], case.get("pad", 0)))])
     tmp = tempfile.mkdtemp(prefix="verif_c05_")
     texts, names = {}, {}
 
@@ -378,6 +384,23 @@ def realized(case, obs):
     start = {r["q"]: r["t"] for r in log if r["ev"] == "start"}
     K, ref = case["K"], case["refinable"]
     s = case["sched"]
+
+    def cex(rep):
+        f = rep["first"]["kind"]
+        return f in ("sat", "sat_rc") or (f == "sat_abstract" and ref and rep.get("second", {}).get("kind") in ("sat", "sat_rc"))
+
+    shuts = case["early"] and any(cex(rep) for j, rep in case["replies"].items() if CLASS[K[int(j)]] == "potential")
+    if not shuts:
+        # nothing kills a solver here except halmos' own timeout: a scripted answer that never came out means the machine
+        # was too loaded for the (short) timeout of this case
+        for q in start:
+            m = re.match(r"^.*/(\d+)(\.refined)?$", q)
+            rep = case["replies"].get(m.group(1)) if m else None
+            if rep is None:
+                continue
+            kind = (rep.get("second") or {}).get("kind") if m.group(2) else rep["first"]["kind"]
+            if kind != "timeout" and q not in done:
+                return False
     if s["type"] == "par":
         finals = []
         for p in s["perm"]:
@@ -406,7 +429,7 @@ def realized(case, obs):
             if case["replies"][str(j)]["first"]["kind"] == "timeout":
                 if q not in start:
                     return False
-                stuck_done.append(start[q] + 0.6)
+                stuck_done.append(start[q] + 0.9)
             elif q not in done:
                 return False   # never submitted (ShutdownError) or killed: an early exit raced with the exploration
             else:
@@ -551,6 +574,10 @@ def classify_violation(case, impl, spec):
         return KEY_TIMEOUT
     empty_core = case["cache"] and any(r[w]["kind"] in ("unsat", "unsat_rc") and r[w].get("core") in ("empty", "none")
                                        for r in case["replies"].values() for w in ("first", "second") if r.get(w))
+    wrapped = case["cache"] and any(r[w]["kind"] in ("unsat", "unsat_rc") and (r[w].get("wrap") or r[w].get("style") == "cvc5")
+                                    for r in case["replies"].values() for w in ("first", "second") if r.get(w))
+    if wrapped and not empty_core and spec == "fail" and impl != 1 and "vc" in oc:
+        return KEY_WRAPPED_CORE + f":{EXIT_NAME.get(impl, impl)}-instead-of-FAIL"
     if empty_core and spec == "fail" and impl != 1 and "vc" in oc:
         return KEY_EMPTY_CORE + f":{EXIT_NAME.get(impl, impl)}-instead-of-FAIL"
     return (f"verdict:{EXIT_NAME.get(impl, impl)}-where-property-says-{spec.upper()}"
@@ -636,8 +663,8 @@ def run_and_queue(ctx, pend, case, origin, retries=1):
     # structural ids: the dumped queries name exactly as many assertions as the model is told
     if case["cache"]:
         for (j, _refd), nm in obs["names"].items():
-            if len(nm) != len(asserts_of(case["K"], j, case["refinable"])):
-                raise RuntimeError(f"harness: path {j} has {len(nm)} named assertions, expected {len(asserts_of(case['K'], j, case['refinable']))}")
+            if len(nm) != len(asserts_of(case["K"], j, case["refinable"], case.get("pad", 0))):
+                raise RuntimeError(f"harness: path {j} has {len(nm)} named assertions, expected {len(asserts_of(case['K'], j, case['refinable'], case.get('pad', 0)))}")
     pend.add(case, obs, origin)
     ctx.sample({"case": case, "halmos_exitcode": obs["code"], "stub_completion_order": [r["q"] for r in obs["log"] if r["ev"] == "done"]})
     return True
@@ -855,7 +882,7 @@ def run_main_case(mc):
     art, stub = h["art"], h["stub"]
     descs = []
     for c in mc["contracts"]:
-        fns = [art.Fn(f"{t['fn']}(uint256 x, uint256 y)", body(t["case"]["K"], t["case"]["refinable"])) for t in c["tests"]]
+        fns = [art.Fn(f"{t['fn']}(uint256 x, uint256 y)", body(t["case"]["K"], t["case"]["refinable"], t["case"].get("pad", 0))) for t in c["tests"]]
         if c["setup"] == "ok":
             fns.append(art.Fn("setUp()", [77, 0, "SSTORE"]))
         elif c["setup"] == "revert":
@@ -1022,6 +1049,112 @@ def gen_empty_core_case(rng, lits):
     return case
 
 
+def gen_wrapped_core_case(rng, lits):
+    """paths with 21-40 conditions; one potential query is answered unsat with its full core printed over several lines
+    (yices wraps after 20 names; widths 1, 3, 20; cvc5 prints one name per line; with / without the `(error …)` line); a
+    sibling potential query, which shares every name of the first printed line, is answered sat. FAIL in every order."""
+    while True:
+        m = rng.choice([3, 3, 4])
+        K = [rng.choice(KINDS) for _ in range(m)]
+        pots = [j for j, k in enumerate(K) if CLASS[k] == "potential"]
+        if len(pots) >= 2:
+            break
+    case = gen_case(rng, K, lits)
+    case["pad"] = rng.randint(20, 36)
+    a, b = rng.sample(pots, 2)
+    case["cache"] = rng.random() < 0.8
+    case["replies"][str(a)] = {"first": {"kind": rng.choice(["unsat", "unsat", "unsat_rc"]), "core": "all",
+                                         "wrap": rng.choice([1, 3, 20, 20]), "style": rng.choice(["yices", "yices", "cvc5"]),
+                                         "error_line": rng.random() < 0.5}}
+    case["replies"][str(b)] = {"first": {"kind": rng.choice(["sat", "sat_rc"])}}
+    for rep in case["replies"].values():
+        for w in ("first", "second"):
+            if rep.get(w) and rep[w]["kind"] == "timeout":
+                rep[w] = {"kind": "unknown"}
+            if rep.get(w) and rep[w]["kind"] in ("unsat", "unsat_rc") and isinstance(rep[w].get("core"), int):
+                rep[w]["core"] = "all"   # prefixes of 20+ shared conditions would be unsound cores: not the subject here
+    stucks = [j for j, k in enumerate(K) if CLASS[k] == "stuck"]
+    if any(j > b for j in stucks):
+        case["early"] = False
+    if rng.random() < 0.7:
+        case["sched"] = {"type": "seq"}
+    else:
+        p = list(pots)
+        rng.shuffle(p)
+        case["sched"] = {"type": "par", "perm": p}
+        for j in stucks:
+            if case["replies"][str(j)]["first"]["kind"] == "timeout":
+                case["replies"][str(j)]["first"] = {"kind": "unknown"}
+    return case
+
+
+def unit_parse_unsat_core(ctx):
+    """`parse_unsat_core` on the output formats of z3 / yices (wrapped) / cvc5: every printed name, in order"""
+    h = H()
+    hs, art, stub = h["hs"], h["art"], h["stub"]
+    rng = ctx.rng
+    for _ in range(ctx.scale(150, 1500)):
+        n = rng.choice([0, 1, 2, 19, 20, 21, 24, 40, 41, rng.randint(1, 70)])
+        ids = [str(rng.randint(1, 99999)) for _ in range(n)]
+        style = rng.choice(["yices", "yices", "cvc5", "z3"])
+        wrap = rng.choice([1, 3, 20, 20]) if style == "yices" else None
+        text = "unsat\n" + ("(error \"the context is unsatisfiable\")\n" if rng.random() < 0.5 else "") + \
+            stub.format_core([f"<{i}>" for i in ids], wrap, "yices" if style == "z3" else style)
+        with art.capture_halmos():
+            got = hs.parse_unsat_core(text)
+        ctx.case(("core", text), nontrivial=n > 0)
+        ctx.count(f"parse_unsat_core:{style}:{'multi-line' if (style == 'cvc5' or (wrap and n > wrap)) else 'one-line'}")
+        if got != ids:
+            ctx.violation(f"parse_unsat_core:{style}-format-{'multi-line' if (style == 'cvc5' or (wrap and n > wrap)) else 'one-line'}-core-misparsed",
+                          f"parse_unsat_core returned {len(got) if got is not None else None} of the {n} names printed in {text[:120]!r}…",
+                          {"kind": "core", "text": text, "ids": ids})
+
+
+def real_yices_cases(ctx):
+    """(b) the real yices through the real pipeline: 24 conditions x_i < x_(i+1 mod 24); with all of them the Panic path is
+    infeasible and its unsat core has 24 names (yices prints it on two lines); the sibling Panic path negates link k and is
+    feasible. A counterexample exists, so FAIL — with and without --cache-solver, whichever path is solved first."""
+    h = H()
+    art = h["art"]
+    if not os.path.exists("/venv/bin/yices-smt2"):
+        ctx.count("real-yices:unavailable")
+        return
+    ks = [23, 3, 0] if ctx.tier == "quick" else list(range(YN))
+    for k in ks:
+        for swap in (False, True):
+            for cache in (True, False) if (k == 23 or ctx.tier != "quick") else (True,):
+                code = real_yices_one(k, swap, cache)
+                ctx.case(("yices", k, swap, cache), nontrivial=True)
+                ctx.count(f"real-yices:{'cache' if cache else 'nocache'}:{EXIT_NAME.get(code, code)}")
+                if code != 1:
+                    ctx.violation(KEY_WRAPPED_CORE + f":real-yices:{EXIT_NAME.get(code, code)}-instead-of-FAIL",
+                                  f"real yices, cache_solver={cache}: chain of {YN} conditions, Panic path with link {k} negated is feasible "
+                                  f"(outcomes [vu,vc]: the property says FAIL) but halmos reports {EXIT_NAME.get(code, code)}",
+                                  {"kind": "yices", "k": k, "swap": swap, "cache": cache})
+
+
+YN = 24
+
+
+def real_yices_one(k, swap, cache):
+    art = H()["art"]
+    sig = "check_y(" + ", ".join(f"uint256 x{i}" for i in range(YN)) + ")"
+
+    def link(i):
+        return asm.calldata_arg((i + 1) % YN) + asm.calldata_arg(i) + ["LT"]   # x_i < x_(i+1)
+
+    b = []
+    for i in range(YN):
+        if i == k:
+            cond = link(i) + (["ISZERO"] if swap else [])
+            b += asm.if_then(cond, asm.panic(1), asm.panic(1))   # both branches violate; exactly one of them is feasible
+        else:
+            b += asm.vm_assume(link(i))
+    c = art.TestContract("Y", [art.Fn(sig, b)])
+    run = art.run_contract_offline(c, solver_command=art.YICES_COMMAND, cache_solver=cache, solver_threads=1)
+    return run.results[0].exitcode if len(run.results) == 1 else None
+
+
 def correspond(ctx):
     rng = ctx.rng
     lits = harvest_literals()
@@ -1041,6 +1174,8 @@ def correspond(ctx):
 
     stage("from_result", lambda: unit_from_result(ctx, lits))
     stage("get_solver_output", lambda: unit_get_solver_output(ctx))
+    stage("parse_unsat_core", lambda: unit_parse_unsat_core(ctx))
+    stage("real-yices", lambda: real_yices_cases(ctx))
 
     pend = Pending()
     # 0. corpus + witnesses of the `_cex` theorems
@@ -1048,15 +1183,26 @@ def correspond(ctx):
         run_and_queue(ctx, pend, case, "corpus", retries=2)
         ctx.count("corpus")
     for name, case in WITNESS.items():
-        run_and_queue(ctx, pend, case, f"witness:{name}", retries=3)
-        ctx.count("witness")
+        # the outcome of killing the running stuck confirmation is itself a race (OSError vs clean empty output):
+        # give the `race` witness a few runs so that the known finding is observed in (almost) every check run
+        for attempt in range(5 if name == "race" else 1):
+            before = len(pend.items)
+            run_and_queue(ctx, pend, case, f"witness:{name}", retries=3)
+            ctx.count("witness")
+            if name != "race" or (len(pend.items) > before and pend.items[-1][1]["code"] == 5):
+                break
     # 0b. empty / absent unsat core followed (and preceded) by a valid counterexample, cache on, one solver thread
     for _ in range(ctx.scale(8, 80)):
         run_and_queue(ctx, pend, gen_empty_core_case(rng, lits), "empty-core")
         ctx.count("empty-core-then-sat")
 
+    # 0c. multi-line (wrapped) unsat cores on paths with 21-40 conditions, then / before a sat sibling
+    for _ in range(ctx.scale(8, 80)):
+        run_and_queue(ctx, pend, gen_wrapped_core_case(rng, lits), "wrapped-core")
+        ctx.count("wrapped-core-then-sat")
+
     # 1. systematic: every assignment of kinds to <= 2 paths (quick) / <= 3 (thorough), one random reply/schedule each
-    t_budget = ctx.scale(75, 900)
+    t_budget = ctx.scale(50, 900)
     t0 = time.time()
     small = list(all_K(ctx.scale(2, 3)))
     rng.shuffle(small)
@@ -1072,7 +1218,7 @@ def correspond(ctx):
     # 2. random cases, up to 3 (quick) / 4 (thorough) paths
     maxlen = ctx.scale(3, 4)
     n = 0
-    while time.time() - t0 < t_budget and n < ctx.scale(220, 3000):
+    while time.time() - t0 < t_budget and n < ctx.scale(180, 3000):
         m = rng.choice([maxlen, maxlen, maxlen - 1, 2])
         K = [rng.choice(KINDS) for _ in range(max(1, m))]
         run_and_queue(ctx, pend, gen_case(rng, K, lits), "random")
@@ -1127,6 +1273,15 @@ def replay(ctx, data) -> bool:
         want = fl if fl in ("sat", "unsat", "unknown") else "err"
         print(f"from_result({r['text']!r}, rc={r['rc']}) -> {kind}; expected {want}")
         return kind != want or (kind == "sat" and so.model.is_valid != ("f_evm_" not in r["text"]))
+    if r.get("kind") == "core":
+        h = H()
+        got = h["hs"].parse_unsat_core(r["text"])
+        print(f"parse_unsat_core -> {got}; printed names: {r['ids']}")
+        return got != r["ids"]
+    if r.get("kind") == "yices":
+        code = real_yices_one(r["k"], r["swap"], r["cache"])
+        print(f"real yices, link {r['k']} negated, cache_solver={r['cache']}: halmos reports {EXIT_NAME.get(code, code)}; the property says FAIL")
+        return code != 1
     if r.get("kind") == "main":
         mc = r["mc"]
         run, _, _ = run_main_case(mc)
